@@ -265,6 +265,10 @@ func (r *svcRun) socksConn(port int, cred string) {
 
 // keep-alive connection to a basic-auth protected HTTP service (static_file through frps, dashboard, admin)
 func (r *svcRun) basicConn(kind string, port int, path string, marker string, seq []string) {
+	r.basicConnHost(kind, port, fmt.Sprintf("127.0.0.1:%d", port), path, marker, seq)
+}
+
+func (r *svcRun) basicConnHost(kind string, port int, host, path string, marker string, seq []string) {
 	c, err := net.DialTimeout("tcp", fmt.Sprintf("127.0.0.1:%d", port), 2*time.Second)
 	if err != nil {
 		r.sink.Emit("drv", "svc.note", "what", "dial failed", "kind", kind, "err", err.Error())
@@ -279,7 +283,7 @@ func (r *svcRun) basicConn(kind string, port int, path string, marker string, se
 		if v := svcBasic(cred); v != "" {
 			hdr = "Authorization: " + v + "\r\n"
 		}
-		status, body, usable := svcExchange(c, br, fmt.Sprintf("GET %s HTTP/1.1\r\nHost: 127.0.0.1:%d\r\n%s\r\n", path, port, hdr), "GET")
+		status, body, usable := svcExchange(c, br, fmt.Sprintf("GET %s HTTP/1.1\r\nHost: %s\r\n%s\r\n", path, host, hdr), "GET")
 		served := status == 200 && strings.Contains(body, marker)
 		if usable {
 			usable = svcUsable(c, br)
@@ -333,8 +337,10 @@ func servicesCmd(args []string) int {
 
 	base := env.FreeBlock(3)
 	dashPort, adminPort := env.FreeTCPPort(), env.FreeTCPPort()
+	vhostPort := env.FreeTCPPort()
 	srv, err := env.StartServer(func(c *v1.ServerConfig) {
 		c.WebServer = v1.WebServerConfig{Addr: "127.0.0.1", Port: dashPort, User: svcUser, Password: svcPass}
+		c.VhostHTTPPort = vhostPort
 	})
 	if err != nil {
 		panic(err)
@@ -352,6 +358,19 @@ func servicesCmd(args []string) int {
 		mk("svc-socks5", base+1, "socks5", &v1.Socks5PluginOptions{Type: "socks5", Username: svcUser, Password: svcPass}),
 		mk("svc-static", base+2, "static_file", &v1.StaticFilePluginOptions{Type: "static_file", LocalPath: dir, StripPrefix: "static", HTTPUser: svcUser, HTTPPassword: svcPass}),
 	}
+	// password protected http proxies behind the vhost port: one on its own, two members of a load-balancing group
+	mkHTTP := func(name, domain, group string) v1.ProxyConfigurer {
+		p := &v1.HTTPProxyConfig{}
+		p.Name, p.Type = name, "http"
+		p.LocalIP, p.LocalPort = "127.0.0.1", r.target.ln.Addr().(*net.TCPAddr).Port
+		p.CustomDomains = []string{domain}
+		p.HTTPUser, p.HTTPPassword = svcUser, svcPass
+		if group != "" {
+			p.LoadBalancer.Group, p.LoadBalancer.GroupKey = group, "gk"
+		}
+		return p
+	}
+	pxys = append(pxys, mkHTTP("svc-http-plain", "plain.test", ""), mkHTTP("svc-http-g1", "lb.test", "g"), mkHTTP("svc-http-g2", "lb.test", "g"))
 	cli, err := env.StartClient(srv.Cfg.BindPort, func(c *v1.ClientCommonConfig) {
 		c.WebServer = v1.WebServerConfig{Addr: "127.0.0.1", Port: adminPort, User: svcUser, Password: svcPass}
 	}, pxys, nil)
@@ -367,7 +386,21 @@ func servicesCmd(args []string) int {
 			}
 			c.Close()
 		}
-		return len(srv.Svc.VerifState().Ctls) == 1
+		if len(srv.Svc.VerifState().Ctls) != 1 {
+			return false
+		}
+		for _, h := range []string{"plain.test", "lb.test"} { // routes registered: the vhost port answers 401, not 404
+			c, err := net.DialTimeout("tcp", fmt.Sprintf("127.0.0.1:%d", vhostPort), 200*time.Millisecond)
+			if err != nil {
+				return false
+			}
+			st, _, _ := svcExchange(c, bufio.NewReader(c), fmt.Sprintf("GET / HTTP/1.1\r\nHost: %s\r\nConnection: close\r\n\r\n", h), "GET")
+			c.Close()
+			if st == 404 || st == 0 {
+				return false
+			}
+		}
+		return true
 	})
 	if !ready {
 		fmt.Println("services: endpoints did not come up")
@@ -416,6 +449,16 @@ func servicesCmd(args []string) int {
 		}
 		for i := 0; i < *n/2; i++ {
 			r.basicConn(s.kind, s.port, s.path, s.marker, r.credSeq(1+r.rnd.Intn(4)))
+		}
+	}
+	// http proxies with httpUser / httpPassword behind the vhost port, alone and as members of a group
+	for _, h := range [][2]string{{"vhost_http", "plain.test"}, {"vhost_group", "lb.test"}} {
+		for _, cred := range svcCreds {
+			r.basicConnHost(h[0], vhostPort, h[1], "/x", svcSecret, []string{cred})
+			r.basicConnHost(h[0], vhostPort, h[1], "/x", svcSecret, []string{"right", cred, "right"})
+		}
+		for i := 0; i < *n/2; i++ {
+			r.basicConnHost(h[0], vhostPort, h[1], "/x", svcSecret, r.credSeq(1+r.rnd.Intn(4)))
 		}
 	}
 	sink.Close()
